@@ -1,12 +1,11 @@
 #!/bin/bash
-# usage: try_mutant.sh <patch.diff> <Cxx> [tier]   -- apply to /repo, run the check, always restore
+# usage: try_mutant.sh <patch.diff> <Cxx> [tier]   -- applies the patch in a scratch worktree of /repo HEAD and runs the check on it
 p="$1"; id="$2"; tier="${3:-quick}"
-cd /repo && git diff --quiet || { echo "/repo dirty; abort"; exit 3; }
-git -C /repo apply "$p" || { echo "patch does not apply"; exit 3; }
-cp /verif/evidence/$id.json /tmp/ev_$id.bak 2>/dev/null
-( cd /verif && timeout 3000 ./check $id --tier $tier > /tmp/mutrun_$id.log 2>&1 ); rc=$?
-git -C /repo checkout -- . 
-cp /tmp/ev_$id.bak /verif/evidence/$id.json 2>/dev/null
-echo "rc=$rc  violations: $(grep -c '^VIOLATION' /tmp/mutrun_$id.log)  known: $(grep -c '^KNOWN' /tmp/mutrun_$id.log)"
-grep -E '^VIOLATION|^MACHINERY' /tmp/mutrun_$id.log | cut -c1-260 | head -${4:-3}
-tail -1 /tmp/mutrun_$id.log | cut -c1-200
+wt=/tmp/mwt_$(basename $(dirname "$p"))_$(basename "$p" .patch.diff)_$id
+/verif/tools/mkwt.sh $wt >/dev/null || exit 3
+git -C $wt apply "$p" || { echo "patch does not apply"; git -C /repo worktree remove --force $wt; exit 3; }
+log=/tmp/mutrun_$(basename $(dirname "$p"))_$(basename "$p" .patch.diff)_$id.log
+( cd /verif && mkdir -p /tmp/ev_bak && cp evidence/$id.json /tmp/ev_bak/$id.json.$$ 2>/dev/null; VERIF_REPO=$wt timeout 3000 ./check $id --tier $tier > $log 2>&1; rc=$?; cp /tmp/ev_bak/$id.json.$$ evidence/$id.json 2>/dev/null; exit $rc ); rc=$?
+git -C /repo worktree remove --force $wt
+echo "[$(basename $(dirname "$p"))/$(basename "$p") vs $id] rc=$rc violations=$(grep -c '^VIOLATION' $log) known=$(grep -c '^KNOWN' $log)"
+grep -E '^VIOLATION|^MACHINERY' $log | cut -c1-240 | head -${4:-2}
